@@ -383,3 +383,88 @@ pub fn shrink(scn: &Scenario, viol: &Violation, budget: u64) -> Shrunk {
         accepted,
     }
 }
+
+/// Second phase, for scenarios with more than one simulated thread: replace the seeded strategy by
+/// the explicit list of decisions it took, then make that list as short and as uneventful as the
+/// failure allows - truncate it (behind its end the running thread keeps running) and turn single
+/// decisions into "stay". What is left are the context switches the failure needs.
+pub struct SchedMin {
+    pub scenario: Scenario,
+    pub violation: Violation,
+    pub evaluations: u64,
+    pub decisions_recorded: usize,
+    pub decisions_kept: usize,
+    pub forced_switches: usize,
+}
+
+pub fn minimise_schedule(scn: &Scenario, viol: &Violation, budget: u64) -> Option<SchedMin> {
+    use crate::sched::STAY;
+    if scn.threads.len() < 2
+        || scn.sched.strategy == Strategy::Free
+        || scn.knob("isolated").is_some()
+        || scn.knob("miri_seed").is_some()
+    {
+        return None;
+    }
+    // the decisions the strategy took (the run is deterministic, so this is the failing run)
+    let recorded = if scn.sched.choices.is_empty() || scn.sched.strategy != Strategy::Stay {
+        crate::world::run(scn).sched.choices
+    } else {
+        scn.sched.choices.clone()
+    };
+    if recorded.is_empty() || recorded.len() > 4000 {
+        return None;
+    }
+    let mut evals = 0u64;
+    let mut best = scn.clone();
+    best.sched.strategy = Strategy::Stay;
+    best.sched.choices = recorded.clone();
+    evals += 1;
+    let mut best_v = same_failure(&best, &viol.prop, &viol.clause)?;
+    // 1. shortest prefix (bisection, then confirmed by the run itself)
+    let (mut lo, mut hi) = (0usize, best.sched.choices.len());
+    while lo < hi && evals < budget {
+        let mid = (lo + hi) / 2;
+        let mut c = best.clone();
+        c.sched.choices.truncate(mid);
+        evals += 1;
+        if let Some(v) = same_failure(&c, &viol.prop, &viol.clause) {
+            best = c;
+            best_v = v;
+            hi = mid;
+        } else {
+            lo = mid + 1;
+        }
+    }
+    // 2. single decisions become "stay", last first
+    let mut i = best.sched.choices.len();
+    while i > 0 && evals < budget {
+        i -= 1;
+        if best.sched.choices[i] == STAY {
+            continue;
+        }
+        let mut c = best.clone();
+        c.sched.choices[i] = STAY;
+        evals += 1;
+        if let Some(v) = same_failure(&c, &viol.prop, &viol.clause) {
+            best = c;
+            best_v = v;
+        }
+    }
+    while best.sched.choices.last() == Some(&STAY) {
+        best.sched.choices.pop();
+    }
+    // must still fail after dropping the trailing "stay"s (they equal the fallback)
+    evals += 1;
+    let v = same_failure(&best, &viol.prop, &viol.clause)?;
+    best_v = v;
+    let forced = best.sched.choices.iter().filter(|c| **c != STAY).count();
+    Some(SchedMin {
+        decisions_recorded: recorded.len(),
+        decisions_kept: best.sched.choices.len(),
+        forced_switches: forced,
+        scenario: best,
+        violation: best_v,
+        evaluations: evals,
+    })
+}
